@@ -320,7 +320,7 @@ func EvalBinaryFloat(op BinaryOperator, left, right float64) float64 {
 		if right == 0 {
 			return 0
 		}
-		return math.Mod(left, right) // truncated, like WGSL % on integers and floats
+		return left - right*math.Trunc(left/right) // the WGSL definition of % (truncated)
 	default:
 		return 0
 	}
